@@ -98,12 +98,12 @@ func generate(r *simkit.Rand, prop, tier string) *simkit.Plan {
 		w[4], w[5], w[6] = 0, 0, 0
 		w[7], w[8], w[9], w[10] = r.Range(1, 3), r.Range(1, 3), r.Range(4, 12), r.Range(1, 2)
 		withWorkers = true
-	} else if prop == "C09" && p.Arm == "monotone" && r.Chance(0.25) {
+	} else if prop == "C09" && p.Arm == "monotone" && r.Chance(0.35) {
 		// a tiny checkpoint-hashes holder: AccountsDB.Commit forces a state checkpoint of the new root whenever the
 		// holder is full; each forced checkpoint is run to completion right after the commit
 		p.Arm = "monotone+forced-checkpoints"
-		nodeRecur = r.Chance(0.7)
-		if r.Chance(0.6) {
+		nodeRecur = r.Chance(0.9)
+		if r.Chance(0.8) {
 			p.Knobs["queue"] = 0
 		}
 		p.Knobs["bubble"], p.Knobs["drain_each"] = 1, 1
